@@ -531,6 +531,12 @@ def c17(A):
         o.dec("wire_ids")
         if not (1 <= p["id"] <= 65535):
             o.bad("wire-id-range/%s" % p["t"], "identifier %r on the wire" % (p["id"],), e)
+    # a request with valid arguments must not fail because no representable identifier could be made
+    for r in A.reqs.values():
+        if r.op in ("publish", "subscribe", "unsubscribe") and not r.info.get("raw") and r.called_at_return and r.failed():
+            et = r.fires[0]["etype"]
+            if et not in ("MQTTStateError", "MQTTWindowError"):
+                o.bad("request-failed-at-allocation/%s/%s" % (r.op, et), "%s() with valid arguments failed with %s: %s" % (r.op, et, r.fires[0].get("msg")), A.trace[r.i_ret])
     live = {}     # msgId -> Req (unfinished)
     order = []
     for r in A.reqs.values():
